@@ -416,13 +416,25 @@ def _remove_stmt(fn, stmt):
     return False
 
 
-def inline_new_locals(fn, known: list) -> list:
+def alignment_score(fn, ref_sigs: list) -> int:
+    import difflib
+
+    a = [d for d, _ in stmt_signatures(fn)]
+    b = [d for d, _ in ref_sigs]
+    return sum(blk.size for blk in difflib.SequenceMatcher(a=a, b=b, autojunk=False).get_matching_blocks())
+
+
+def inline_new_locals(fn, known: list, ref_sigs: Optional[list] = None) -> list:
+    """ref_sigs given: greedy mode - one local at a time, kept only if strictly more statements then align with the
+    reference (each single inlining is behaviour-preserving on its own, so any subset is sound; the score only decides
+    whether it is *useful*)."""
     done = []
-    for _round in range(8):
+    rejected = set()
+    for _round in range(24):
         changed = False
         names = local_names(fn)
         for name in names:
-            if name in known:
+            if name in known or name in rejected:
                 continue
             binds = [n for n in _own_nodes(fn) if (isinstance(n, ast.Name) and n.id == name and isinstance(n.ctx, (ast.Store, ast.Del)))]
             if len(binds) != 1:
@@ -430,11 +442,19 @@ def inline_new_locals(fn, known: list) -> list:
             assign = next((s for s in _own_nodes(fn) if isinstance(s, (ast.Assign, ast.AnnAssign)) and (s.targets if isinstance(s, ast.Assign) else [s.target]) == [binds[0]] and s.value is not None), None)
             if assign is None or not _safe_to_inline(fn, assign, name):
                 continue
+            if ref_sigs is not None:
+                before = alignment_score(fn, ref_sigs)
+                saved = copy.deepcopy(fn.body)
             sub = _Subst(name, assign.value)
             for i, st in enumerate(list(fn.body)):
                 fn.body[i] = sub.visit(st)
             _remove_stmt(fn, assign)
             ast.fix_missing_locations(fn)
+            if ref_sigs is not None and alignment_score(fn, ref_sigs) <= before:
+                fn.body[:] = saved
+                rejected.add(name)
+                changed = True
+                break
             done.append(name)
             changed = True
             break
@@ -567,6 +587,11 @@ def normalise_module(modname: str, tree: ast.Module, source: str = "") -> dict:
                         entry["inlined"] = inl
                     elif inl:
                         fn.body[:] = saved
+            if "inlined" not in entry and r.get("stmts"):
+                # a hoist next to a real edit: keep the inlinings that bring statements back to their reference form
+                inl = inline_new_locals(fn, r["locals"], r["stmts"])
+                if inl:
+                    entry["inlined_partial"] = inl
         if entry:
             log[q] = entry
     return log
